@@ -39,6 +39,12 @@ pub enum Damage {
     TextInsert(usize),
     /// kind 0: axis+1, 1: axis-1, 2: append an axis of length 2, 3: drop the last axis
     ShapeEdit { kind: u8, axis: usize },
+    /// surplus values after the value line: kind 0 duplicates the value line, 1 appends a line
+    /// with one value, 2 appends the whole file again (two concatenated files), 3 appends a
+    /// value line without a trailing newline
+    TextAppend { kind: u8 },
+    /// text file cut at byte k (a crash while writing)
+    TextTruncate(usize),
 }
 
 #[derive(Clone, Debug, Serialize, Deserialize)]
@@ -114,6 +120,12 @@ pub fn all_damages(file: &FileSpec, img: &[u8]) -> Vec<Damage> {
         }
         v.push(Damage::ShapeEdit { kind: 2, axis: 0 });
         v.push(Damage::ShapeEdit { kind: 3, axis: 0 });
+        for kind in 0..4u8 {
+            v.push(Damage::TextAppend { kind });
+        }
+        for k in 0..img.len() {
+            v.push(Damage::TextTruncate(k));
+        }
     } else {
         for k in 0..img.len() {
             v.push(Damage::Truncate(k));
@@ -153,6 +165,48 @@ pub fn apply(file: &FileSpec, img: &[u8], d: &Damage) -> Option<Vec<u8>> {
                 _ => v.extend(img.iter().cycle().take(*n)),
             }
             Some(v)
+        }
+        Damage::TextAppend { kind } => {
+            let text = std::str::from_utf8(img).ok()?;
+            let (_, rest) = text.split_once('\n')?;
+            let line = rest.trim_end_matches('\n');
+            if line.split_ascii_whitespace().count() == 0 {
+                return None;
+            }
+            let mut v = img.to_vec();
+            match kind {
+                0 => v.extend_from_slice(format!("{line}\n").as_bytes()),
+                1 => v.extend_from_slice(b"1\n"),
+                2 => v.extend_from_slice(img),
+                _ => v.extend_from_slice(line.split_ascii_whitespace().next()?.as_bytes()),
+            }
+            Some(v)
+        }
+        Damage::TextTruncate(k) => {
+            // the oracle applies only where the cut file no longer holds product(shape) values
+            // under the original header (a cut inside the last token still parses as a value)
+            if *k >= img.len() {
+                return None;
+            }
+            let cut = &img[..*k];
+            let text = std::str::from_utf8(cut).ok()?;
+            let shape = shape_of(file);
+            let product: usize = shape.iter().product();
+            match text.split_once('\n') {
+                Some((_, rest)) => {
+                    if rest.split_ascii_whitespace().count() == product {
+                        return None;
+                    }
+                }
+                None => {
+                    // header line cut: the declared shape may have changed; skip when the prefix
+                    // could still be read as a header of some valid file (no values follow)
+                    if product == 0 {
+                        return None;
+                    }
+                }
+            }
+            Some(cut.to_vec())
         }
         Damage::TextDrop(_) | Damage::TextInsert(_) | Damage::ShapeEdit { .. } => {
             let text = std::str::from_utf8(img).ok()?;
@@ -250,6 +304,8 @@ pub fn damage_class(file: &FileSpec, img: &[u8], d: &Damage) -> String {
         Damage::TextDrop(_) => "text_drop_token".into(),
         Damage::TextInsert(_) => "text_insert_token".into(),
         Damage::ShapeEdit { kind, .. } => format!("text_shape_edit_{kind}"),
+        Damage::TextAppend { kind } => format!("text_append_{}", ["duplicate_value_line", "extra_line", "concatenated_file", "unterminated_extra_value"][*kind as usize % 4]),
+        Damage::TextTruncate(_) => "text_truncate".into(),
     }
 }
 
@@ -614,6 +670,9 @@ impl Prop for C16 {
             "fault.extend/zeros/multiple_of_8",
             "fault.text_drop_token",
             "fault.text_shape_edit_0",
+            "fault.text_append_duplicate_value_line",
+            "fault.text_append_concatenated_file",
+            "fault.text_truncate",
             "fault.l2.kill_mid_write",
             "control_accepted.npy",
         ]
